@@ -18,7 +18,7 @@ LEVEL_TEXT = (
     'lengths) are value-level statements that no structural rule here decides: a change that breaks '
     'them while keeping the shape is NOT detected.')
 
-FLOORS = {'C20-R1': 3, 'C20-R2': 3, 'C20-R3': 2, 'C10-R5': 1, 'C20-R4': 5}
+FLOORS = {'C20-R1': 3, 'C20-R2': 3, 'C20-R3': 2, 'C10-R5': 2, 'C20-R4': 5}
 
 DNM = 'util::densenatmap::DenseNatMap'
 
